@@ -82,6 +82,8 @@ open_("X3", "C15", "a UNIQUE index over columns of different types listed out of
 for prop in ("C10", "C11"):
     open_("D31c", prop, "with cells of ~400 bytes or more on 4 KiB pages (400-byte payloads, or 180-byte keys with 200-byte payloads) a rebalance leaves a separator that misroutes (a key smaller than the separator in its right subtree) after ~100 operations; trees of height 3 are reachable only with such cells", "O-structure", "payload_400", "findings/D31c-separator-misroutes-after-rebalance-with-400-byte-payloads.json")
 
+open_("L1", "C11", "a CREATE TABLE inside a transaction that is rolled back (or dropped by a reopen) leaks the table's root page: it belongs to no tree and is not on the free list", "O-pages", "create_table_inside_session", "findings/L1-rolled-back-create-table-leaks-its-root-page.json")
+
 # ---- open findings: threads (C14) ----
 open_("T1", "C14", "two client threads inserting into the same table lose acknowledged rows (final COUNT(*) below the number of acknowledged inserts; COUNT(*) below what was acknowledged before it started)", "O-state", "concurrent_inserts_into_one_table", "findings/T1-concurrent-inserts-into-one-table-lose-acknowledged-rows.json")
 
